@@ -15,7 +15,7 @@
 (* abstract store is re-synchronised with the observed stream, so validation  *)
 (* continues and every later line is judged against what the file really held.*)
 EXTENDS ProjDataStore, TraceLib
-VARIABLES l, c, bins, posT, stdT, store, bad
+VARIABLES l, c, bins, posT, stdT, store, frames, bad
 
 NoCfg == [n |-> -1]
 GeoOf(r) == [minSeg |-> r.minSeg, maxSeg |-> r.maxSeg, ax |-> r.ax, minView |-> r.minView, maxView |-> r.maxView,
@@ -219,9 +219,36 @@ WriteToFileCore(r) ==
   /\ ReadOk(store, LAMBDA b : TRUE, LAMBDA b : stdT[b] + 1, r.vals, c.n)
 WriteToFileOk(r) == WriteToFileCore(r) /\ ReopenExtra(r)
 
+\* ---- BEYOND THE PROPERTY: MultipleProjData / DynamicProjData (backing "multi"): frames = the sequence of stores, each in
+\* its standard order; every line also carries `all' = copy_to of the whole object after the call
+IsMulti(r) == r.e \in {"MFill", "MCopy", "MGet", "MSetSub", "MReplace", "MCalib", "MDivDur", "MRead"}
+MultiConfigOk(r) == r.K >= 1 /\ r.n >= 1 /\ Len(r.kinds) = r.K /\ Len(r.frames) = r.K /\ Len(r.durs) = r.K /\ ~r.err
+FramesDivisible(fr, durs) == \A k \in 1..Len(fr) : \A i \in 1..Len(fr[k]) : fr[k][i] % durs[k] = 0
+NewFrames(r) ==
+  CASE r.e = "MFill" -> IF Len(r.vals) = c.K * c.n /\ ~r.err THEN SplitFrames(r.vals, c.K, c.n) ELSE frames
+    [] r.e \in {"MSetSub", "MReplace"} ->
+         IF frames # << >> /\ r.idx >= 1 /\ r.idx <= c.K /\ Len(r.vals) = c.n /\ ~r.err THEN [frames EXCEPT ![r.idx] = r.vals] ELSE frames
+    [] r.e = "MCalib" -> IF frames # << >> /\ ~r.err THEN ScaleFrames(frames, r.f) ELSE frames          \* calibrate_frames: every frame times the factor
+    [] r.e = "MDivDur" -> IF frames # << >> /\ ~r.err /\ FramesDivisible(frames, c.durs) THEN DivFrames(frames, c.durs) ELSE frames
+    [] OTHER -> frames
+MultiOk(r) ==
+  /\ ~r.err /\ ~r.oerr
+  /\ (r.e # "MFill" => frames # << >>)
+  /\ CASE r.e = "MFill" -> Len(r.vals) = c.K * c.n
+        [] r.e = "MCopy" -> r.vals = Concat(frames) /\ r.size = c.K * c.n /\ r.num = c.K           \* copy_to / size_all / get_num_proj_data
+        [] r.e = "MGet" -> r.idx >= 1 /\ r.idx <= c.K /\ r.vals = frames[r.idx]                      \* index k (from 1) is store k
+        [] r.e \in {"MSetSub", "MReplace"} -> r.idx >= 1 /\ r.idx <= c.K /\ Len(r.vals) = c.n
+        [] r.e = "MCalib" -> r.nframes = c.K
+        [] r.e = "MDivDur" -> FramesDivisible(frames, c.durs)
+        \* the multi header lists one file per data set; data set k is store k and its time frame is frame k
+        [] r.e = "MRead" -> r.num = c.K /\ r.vals = Concat(frames) /\ r.frames = c.frames
+  /\ r.all = Concat(NewFrames(r))
+
 Explains(r) ==
   IF r.e = "Config" THEN ConfigOk(r)
   ELSE IF c = NoCfg THEN FALSE
+  ELSE IF c.backing = "multi" THEN IsMulti(r) /\ MultiOk(r)
+  ELSE IF IsMulti(r) THEN FALSE
   ELSE IF IsWrite(r) THEN WriteOk(r) /\ ObsOk(r, c, NewStore(r), posT)
   ELSE IF IsRead(r) THEN ReadCallOk(r) /\ ObsOk(r, c, store, posT)
   ELSE IF r.e = "Reopen" THEN ReopenOk(r) /\ ObsOk(r, c, store, posT)
@@ -247,7 +274,8 @@ Tof1Rest(r) ==
      /\ (r.e = "Reopen" => LayoutEq(r))
      /\ IF r.verr THEN r.e = "Reopen" /\ Len(r.file) < c.n ELSE ReadOk(store, LAMBDA b : TRUE, LAMBDA b : stdT[b] + 1, r.vals, c.n)
 Classify(r) ==
-  IF c # NoCfg /\ Tof1 /\ r.e \in {"Reopen", "WriteToFile"} /\ (r.e = "Reopen" \/ ~c.fresh) /\ Tof1Rest(r) /\ ObsOk(r, c, store, posT)
+  IF c = NoCfg \/ c.backing = "multi" THEN "new"
+  ELSE IF c # NoCfg /\ Tof1 /\ r.e \in {"Reopen", "WriteToFile"} /\ (r.e = "Reopen" \/ ~c.fresh) /\ Tof1Rest(r) /\ ObsOk(r, c, store, posT)
      /\ (r.err \/ r.geo # r.geo0 \/ ~r.pdiEq)
   THEN "C02-tof1hdr"
   \* the same header re-opened for update / by a second writer: unreadable (Timing_ order) or geometry read back as non-TOF
@@ -261,11 +289,16 @@ Classify(r) ==
           /\ ObsOk(r, c, store, posT) THEN "C02-oorseg"
   ELSE "new"
 
-Init == l = 1 /\ c = NoCfg /\ bins = {} /\ posT = << >> /\ stdT = << >> /\ store = << >> /\ bad = << >>
+Init == l = 1 /\ c = NoCfg /\ bins = {} /\ posT = << >> /\ stdT = << >> /\ store = << >> /\ frames = << >> /\ bad = << >>
 Next ==
   /\ l <= Len(TraceLog)
   /\ LET r == TraceLog[l] IN
-     IF r.e = "Config"
+     IF r.e = "Config" /\ r.backing = "multi"
+     THEN LET okc == MultiConfigOk(r) IN
+          /\ bad' = IF okc THEN bad ELSE Append(bad, << l, "new" >>)
+          /\ c' = IF okc THEN r ELSE NoCfg
+          /\ bins' = {} /\ posT' = << >> /\ stdT' = << >> /\ store' = << >> /\ frames' = << >>
+     ELSE IF r.e = "Config"
      THEN LET okc == ConfigOk(r) IN
           /\ bad' = IF okc THEN bad ELSE Append(bad, << l, "new" >>)
           /\ IF okc /\ ~r.err /\ ~r.herr
@@ -276,17 +309,22 @@ Next ==
                   /\ stdT' = [b \in Bins(gg) |-> Pos(gg, StdLayout(gg), b)]
                   /\ store' = [b \in Bins(gg) |-> 0]
              ELSE c' = NoCfg /\ bins' = {} /\ posT' = << >> /\ stdT' = << >> /\ store' = << >>
+          /\ frames' = << >>
      ELSE LET okr == Explains(r) IN
           /\ bad' = IF okr THEN bad
                     ELSE LET cls == Classify(r) IN
                          IF Len(SelectSeq(bad, LAMBDA x : x[2] = cls)) < (IF cls = "new" THEN 200 ELSE 20) THEN Append(bad, << l, cls >>) ELSE bad
-          /\ store' = IF c = NoCfg THEN store
+          /\ frames' = IF c = NoCfg \/ c.backing # "multi" \/ ~IsMulti(r) THEN frames
+                       ELSE IF okr THEN NewFrames(r)
+                       ELSE IF Has(r, "all") /\ Len(r.all) = c.K * c.n THEN SplitFrames(r.all, c.K, c.n)     \* re-synchronise
+                       ELSE frames
+          /\ store' = IF c = NoCfg \/ c.backing = "multi" THEN store
                       ELSE IF okr THEN NewStore(r)
                       ELSE IF Has(r, "file") /\ Len(r.file) <= c.n THEN Decode(bins, posT, r.file)   \* re-synchronise
                       ELSE store
           /\ UNCHANGED << c, bins, posT, stdT >>
   /\ l' = l + 1
-Spec == Init /\ [][Next]_<< l, c, bins, posT, stdT, store, bad >>
+Spec == Init /\ [][Next]_<< l, c, bins, posT, stdT, store, frames, bad >>
 
 Done == l > Len(TraceLog) => (bad = << >> \/ PrintT(<< "UNEXPLAINED", bad >>))
 Consumed == IF TLCGet("stats").diameter - 1 = Len(TraceLog) THEN TRUE
